@@ -270,6 +270,11 @@ func ContinueReadBodyStream(req *protocol.Request, zr network.Reader, maxBodySiz
 			// is streamed into temporary files if file size exceeds defaultMaxInMemoryFileSize.
 			req.SetMultipartFormBoundary(string(req.Header.MultipartFormBoundary()))
 			if len(req.MultipartFormBoundary()) > 0 && len(req.Header.PeekContentEncoding()) == 0 {
+				// (the form is read and kept before the handler runs, as without streaming:
+				// the body limit holds for it in the same way)
+				if maxBodySize > 0 && contentLength > maxBodySize {
+					return errBodyTooLarge
+				}
 				err := protocol.ParseMultipartForm(zr.(io.Reader), req, contentLength, consts.DefaultMaxInMemoryFileSize)
 				if err != nil {
 					// (the head stays: the error response and the tracers still refer to it)
